@@ -29,6 +29,16 @@ type zzFault struct {
 	path    string
 	outcome int
 	badInt  int64
+	// all: every invocation of parent.field gets the outcome, not only the one at path
+	all           bool
+	parent, field string
+}
+
+func (f *zzFault) hits(parent, field, path string) bool {
+	if f.all {
+		return f.parent == parent && f.field == field
+	}
+	return f.path == path
 }
 
 // zzApplyFault is the resolver-side behaviour for the chosen outcome.
@@ -81,6 +91,32 @@ type zzRefF struct {
 	zzRef
 	fault    *zzFault
 	errPaths []string
+	// failures met after the enclosing object was already doomed by a non-null
+	// violation: an implementation may stop executing that object and not report them
+	optPaths []string
+	doomed   int
+}
+
+func (r *zzRefF) expects(path string) bool {
+	for _, p := range r.errPaths {
+		if p == path {
+			return true
+		}
+	}
+	for _, p := range r.optPaths {
+		if p == path {
+			return true
+		}
+	}
+	return false
+}
+
+func (r *zzRefF) fail(path string) {
+	if r.doomed > 0 {
+		r.optPaths = append(r.optPaths, path)
+	} else {
+		r.errPaths = append(r.errPaths, path)
+	}
 }
 
 // execSelF: expected data of a selection set under one fault; ok=false means a
@@ -108,34 +144,40 @@ func (r *zzRefF) execSelF(runtime string, sets []*ast.SelectionSet, path string)
 		val, ok := r.fieldF(runtime, spec, g, fpath)
 		if !ok {
 			if spec.nonNull {
-				alive = false
-				continue // siblings still execute; the parent becomes null
+				if alive {
+					alive = false
+					r.doomed++ // the remaining siblings may or may not be executed
+				}
+				continue
 			}
 			val = nil
 		}
 		out[g.key] = val
 	}
+	if !alive {
+		r.doomed--
+	}
 	return out, alive
 }
 
 func (r *zzRefF) fieldF(runtime string, spec *zzFieldSpec, g zzGroup, fpath string) (interface{}, bool) {
-	faulty := r.fault != nil && r.fault.path == fpath
+	faulty := r.fault != nil && r.fault.hits(runtime, spec.name, fpath)
 	if faulty {
 		o := r.fault.outcome
 		if zzFaultFails(o) {
-			r.errPaths = append(r.errPaths, fpath)
+			r.fail(fpath)
 			return nil, false
 		}
 		switch o {
 		case zzOutNil, zzOutTypedNil:
 			if spec.nonNull {
-				r.errPaths = append(r.errPaths, fpath)
+				r.fail(fpath)
 			}
 			return nil, false
 		case zzOutBadInt:
 			if r.fault.badInt < -2147483648 || r.fault.badInt > 2147483647 {
 				if spec.nonNull {
-					r.errPaths = append(r.errPaths, fpath)
+					r.fail(fpath)
 				}
 				return nil, false
 			}
@@ -184,6 +226,8 @@ var zzC04Queries = []string{
 	"{ u{... on Obj{x ynn}} n{id ... on Obj{o{x}}} }",
 	"{ i o{n{id}} }",
 	"{ x:a y:o{z:x} ol{y} }",
+	"{ ol{ n{id} x } n{id} }",
+	"{ ol{ n{... on Obj{x}} ynn } u{... on Obj{x}} }",
 }
 
 func zzErrPath(e interface{ }) string { return "" }
@@ -232,18 +276,18 @@ func ZZ_C04_faults() {
 	case zzOutTypedNil:
 		zzAssume(isObject || isAbstract)
 	}
-	if (out == zzOutThunkError || out == zzOutThunkPanic) && spec.nonNull {
-		// recorded defect: a deferred (thunk) failure in a non-null position is
-		// only discovered after the enclosing objects were assembled, so the
-		// null cannot stop at the nearest nullable ancestor
-		zzKnown("KF-C04-thunk-nonnull")
-	}
-	fault := &zzFault{path: target, outcome: out}
+	// recorded defect KF-C04-thunk-nonnull: a deferred (thunk) failure in a
+	// non-null position is only discovered after the enclosing objects were
+	// assembled, so the null cannot stop at the nearest nullable ancestor and
+	// the whole data becomes null. Only that exact outcome is excused below.
+	knownRegion := (out == zzOutThunkError || out == zzOutThunkPanic) && spec.nonNull
+	fault := &zzFault{path: target, outcome: out, parent: parent, field: fname}
+	fault.all = zzChoice("scope", 2) == 1
 	if out == zzOutBadInt {
 		fault.badInt = zzInt64("badInt")
 	}
 	w.hook = func(parent, field string, p ResolveParams) (interface{}, error, bool) {
-		if zzPathString(p.Info.Path) == target {
+		if fault.hits(parent, field, zzPathString(p.Info.Path)) {
 			v, err := w.zzApplyFault(fault, parent, zzFieldSpecOf(zzTypeSpecOf(parent), field), p)
 			return v, err, true
 		}
@@ -259,30 +303,38 @@ func ZZ_C04_faults() {
 		}
 	}
 	want, ok := ref.execSelF("Query", []*ast.SelectionSet{op.SelectionSet}, "")
+	if knownRegion && ok && r.Data == nil && len(r.Errors) == 1 && ref.expects(zzErrPathStr(r.Errors[0].Path)) {
+		zzKnown("KF-C04-thunk-nonnull")
+		zzFail("a deferred failure in a non-null position nulled the whole data instead of the nearest nullable ancestor")
+	}
 	if ok {
 		zzAssert(zzDeepEqual(r.Data, want), "data differs from what null propagation prescribes")
 	} else {
 		zzAssert(r.Data == nil, "a non-null violation at the top level must null data")
 	}
-	// errors: exactly the expected paths
-	zzAssert(len(r.Errors) == len(ref.errPaths), "number of errors")
+	// errors: one per failing field, addressed at it; failures inside an object
+	// that an earlier non-null violation already doomed may go unreported
+	zzAssert(len(r.Errors) >= len(ref.errPaths) && len(r.Errors) <= len(ref.errPaths)+len(ref.optPaths), "number of errors")
+	seen := map[string]bool{}
 	for _, e := range r.Errors {
-		ps := ""
-		for _, k := range e.Path {
-			switch v := k.(type) {
-			case string:
-				ps += "/" + v
-			case int:
-				ps += "/" + zzItoa(v)
-			}
-		}
+		ps := zzErrPathStr(e.Path)
 		found := false
 		for _, want := range ref.errPaths {
 			if want == ps {
 				found = true
 			}
 		}
-		zzAssert(found, "an error path does not address the failing field")
+		for _, want := range ref.optPaths {
+			if want == ps {
+				found = true
+			}
+		}
+		zzAssert(found, "an error path does not address a failing field")
+		zzAssert(!seen[ps], "two errors for one failing field")
+		seen[ps] = true
+	}
+	for _, want := range ref.errPaths {
+		zzAssert(seen[want], "a failing field outside any nulled subtree has no error")
 	}
 	zzAssert(zzJSONable(r.Data, 0), "data not serialisable")
 	zzCover("end")
